@@ -699,6 +699,21 @@ def replay_main(path, drive, model):
     return rc
 
 
+def setup():
+    """MANIFEST.setup_cmd hook: build the extracted runner and the Go driver once."""
+    build_runner()
+    common.go_build("./cmd/c14drive")
+
+
+def coqchk_props(timeout=1500):
+    """thorough tier: re-check the compiled property file and everything it depends on with the
+    independent checker; returns a one-line summary for the evidence."""
+    with common.Lock("coq"):
+        rc, out = common.run(["coqchk", "-silent", "-o", "-Q", ".", "Nexus", "Nexus.Props.C14"], cwd=common.COQ, timeout=timeout)
+    tail = " ".join(out.strip().splitlines()[-12:])[-900:]
+    return dict(rc=rc, summary=tail)
+
+
 def main(tier, replay):
     t = common.Timer()
     v = common.Verdict(PID)
@@ -748,7 +763,7 @@ def main(tier, replay):
     n_val = 9000 if escalate else 2400
     n_mut = 60000 if escalate else 16000
     if thorough:
-        n_msg, n_val, n_mut = 33600, 100000, 1000000
+        n_msg, n_val, n_mut = 19200, 60000, 800000
     scale = float(os.environ.get("C14_SCALE", "1"))
     n_msg, n_val, n_mut = max(24, int(n_msg * scale)), max(30, int(n_val * scale)), max(300, int(n_mut * scale))
 
@@ -868,6 +883,14 @@ def main(tier, replay):
                    searched=dict(evaluations=run.evaluations, counts=run.counts), seed=common.seed(), repo=common.REPO)
         v.violation(obj, tag="obligation", no_input=True)
 
+    chk = None
+    if thorough and not (tie_broken or undischarged):
+        chk = coqchk_props()
+        common.info("C14: coqchk rc=%s %.1fs" % (chk["rc"], t.s()))
+        if chk["rc"] not in (0, 124):
+            not_shown.append("coqchk rejects Props/C14.vo: " + chk["summary"][-300:])
+            obj = dict(property=PID, no_failing_input=True, broken=not_shown, seed=common.seed(), repo=common.REPO)
+            v.violation(obj, tag="coqchk", no_input=True)
     # ---- evidence
     trusted = ["Coq 8.16.1 kernel (coqc), vm_compute for conformance lemmas and witnesses; no native_compute"]
     for th, txt in sorted(r.get("assumptions", {}).items()):
@@ -896,6 +919,7 @@ def main(tier, replay):
         first_disagreements=[dict(fmt=b["case"].get("fmt"), hex=(b["case"].get("hex") or "")[:200], why=b["why"][:400]) for b in run.broken[:25]],
         findings=[f["signature"] for f in run.findings],
         hygiene=hyg,
+        coqchk=chk,
     )
     assumptions = [
         "ugorji/go/codec behaves as modelled in coq/Codec/{MsgPack,Cbor,Json}.v (validated by the differential runs of this check, not proved)",
